@@ -301,6 +301,14 @@ fn parse_case(o: &mut Out, b: &[u8], fam: &str) -> String {
     o.direct(raw.try_parse() == f, "c16: RawExtraField::try_parse == fields of ExtraField::try_parse", hex(b), dump(&raw.try_parse().0), dump(&f.0));
     o.direct(f.tx_pubkey() == first_key(&f.0) && f.tx_additional_pubkeys() == first_add(&f.0),
         "c16: accessors = first matching sub-field", hex(b), format!("{:?} {:?}", f.tx_pubkey(), f.tx_additional_pubkeys().map(|v| v.len())), "first match".into());
+    // idempotence (C16_reparse): whatever try_parse returned, Ok or Err (salvaged list included), converts back to raw bytes
+    // and parses Ok to exactly the same sub-fields
+    if b.len() <= 8192 {
+        let f2 = f.clone();
+        let again = guarded(move || ExtraField::try_parse(&RawExtraField::from(f2)));
+        o.direct(again == Ok(Ok(f.clone())), "c16: try_parse is idempotent (try_parse(raw(result)) == Ok(result), for Ok and Err results)", format!("c16_parse {}", hex(b)),
+            trunc(&format!("{:?}", again.as_ref().map(|r| r.as_ref().map(|g| dump(&g.0)).map_err(|g| dump(&g.0))).map_err(|e| trunc(e, 80))), 400), trunc(&format!("Ok({})", dump(&f.0)), 400));
+    }
     // "Ok only if re-parsing needs no resynchronisation": an Ok result accounts for every input byte - the sub-fields
     // re-encode to exactly the input (up to the merge-mining size byte, which the decoder reads and ignores)
     if isok { let mut re = Vec::new(); for sf in &f.0 { re.extend(serialize(sf)); }
@@ -326,7 +334,7 @@ fn parse_case(o: &mut Out, b: &[u8], fam: &str) -> String {
     }
     if b.len() <= 4096 { prefix_check(o, b); }
     // relation C for parsing: flag and pre against the independent grammar reader (every 5th case, and every small fixed one)
-    if o.ops.len() % 5 == 0 || fam == "len2" || fam.starts_with("wf.mm") || fam.contains("special-key") || fam.contains("long") || fam.contains("64k") || fam == "huge-len" {
+    if o.ops.len() % 5 == 0 || fam.contains("total-len") || fam.contains("nonce-25x") || fam.contains("mm-size") || fam == "len2" || fam.starts_with("wf.mm") || fam.contains("special-key") || fam.contains("long") || fam.contains("64k") || fam == "huge-len" {
         o.op(format!("c16_okpre {}", hex(b)), !b.is_empty()); o.stat(&format!("okpre.{}", if isok { "ok" } else { "err" }));
     }
     let nt = !b.is_empty() && (!f.0.is_empty() || b.len() >= 2);
@@ -551,6 +559,109 @@ pub fn run(o: &mut Out, tier: &str, seed: u64) {
             format!("Nonce of {} bytes, buffer {} bytes", n, buf_len), format!("{:?}", r.as_ref().map_err(|e| trunc(e, 80))), if want_ok { format!("Ok({})", buf_len) } else { "panic".into() });
         o.stat(if want_ok { "cap.at" } else { "cap.above" });
     }
+    // (7e) total length exactly 33 / 34 / 43 / 44 / 45 (33 = a lone transaction key, 44 = the usual wallet layout key + 9-byte
+    // nonce): sequences of these lengths that start with a transaction key followed by a nonce of EVERY length that fits (not
+    // only 9) and further fields; the same lengths without a leading key; and a key followed by `02 <size byte>` with every
+    // size byte 0..=13 and arbitrary bytes up to the total (well formed or not). Through ExtraField::try_parse (c16_parse),
+    // RawExtraField::try_parse (c16_rawparse), against the model and the grammar reader (c16_okpre).
+    for rep in 0..scale(1, 6) {
+        for &total in &[33usize, 34, 43, 44, 45] {
+            let room = total - 33;
+            let key = GF::Key(keys.valid(&mut rng));
+            let mut seqs: Vec<Vec<GF>> = vec![];
+            if room == 0 { seqs.push(vec![key.clone()]); }
+            if room >= 1 { seqs.push(vec![key.clone(), GF::Pad(room - 1)]); }
+            if room >= 2 {
+                for l in 0..=(room - 2) {
+                    let mut nonce = rng.bytes(l);
+                    // payment-id style nonces: first byte 0x00 (plain) / 0x01 (encrypted)
+                    if l > 0 && rep % 2 == 0 { nonce[0] = (l % 2) as u8; }
+                    let left = room - 2 - l;
+                    let head = vec![key.clone(), GF::Nonce(nonce)];
+                    if left == 0 { seqs.push(head.clone()); }
+                    if left >= 1 { let mut v = head.clone(); v.push(GF::Pad(left - 1)); seqs.push(v); }
+                    if left >= 2 {
+                        let mut v = head.clone(); v.push(GF::Gate(rng.bytes(left - 2))); seqs.push(v);
+                        let mut v = head.clone(); v.push(GF::Nonce(rng.bytes(left - 2))); seqs.push(v);
+                        let mut v = head.clone(); v.push(GF::Add(vec![])); if left >= 3 { v.push(GF::Pad(left - 3)); } seqs.push(v);
+                    }
+                    if left >= 4 { let a = rng.below((left - 3) as u64) as usize; let mut v = head.clone(); v.push(GF::Gate(rng.bytes(a))); v.push(GF::Nonce(rng.bytes(left - 4 - a))); seqs.push(v); }
+                }
+                // the key not in first position / no key at all
+                seqs.push(vec![GF::Nonce(rng.bytes(room - 2)), key.clone()]);
+                seqs.push(vec![GF::Gate(rng.bytes(room - 2)), key.clone()]);
+            }
+            seqs.push(vec![GF::Nonce(rng.bytes(total - 2))]);
+            seqs.push(vec![GF::Gate(rng.bytes(total - 2))]);
+            seqs.push(vec![GF::Pad(total - 1)]);
+            seqs.push(vec![GF::Nonce(rng.bytes(9)), GF::Nonce(rng.bytes(total - 13))]);
+            for fs in &seqs {
+                let b = layout_all(fs);
+                o.direct(b.len() == total, "c16 generator: sequence has the intended total length", format!("{:?}", fs.len()), b.len().to_string(), total.to_string());
+                wf_case(o, fs, &format!("total-len{}", total), true);
+                if rep == 0 { valid_raws.push(b); }
+            }
+            // a 33-byte string that starts like a key field but is not one; key + `02 sz` + anything, every size byte
+            let mut b = vec![1u8]; let bk = *rng.pick(&keys.bad[..]); b.extend_from_slice(&bk); b.extend(rng.bytes(room));
+            parse_case(o, &b, "total-len-badkey"); o.op(format!("c16_rawparse {}", hex(&b)), true); o.stat("rawparse.total-len");
+            if room >= 2 {
+                for sz in 0..=13u8 {
+                    let mut b = layout_all(&[key.clone()]); b.push(2); b.push(sz);
+                    let mut fill = rng.bytes(room - 2);
+                    if rng.chance(1, 2) { for x in fill.iter_mut() { if rng.chance(1, 2) { *x = *rng.pick(&[0u8, 0, 1, 2, 0xde, 4]); } } }
+                    b.extend(fill);
+                    parse_case(o, &b, "total-len-size-byte"); o.op(format!("c16_rawparse {}", hex(&b)), true); o.stat("rawparse.total-len");
+                }
+            }
+        }
+    }
+    // (7f) nonces / blobs of exactly 253..=257 bytes (around the one-byte size 255 | 256 and the "255 bytes limited nonce" of the
+    // documentation), alone and inside sequences; and the same declared lengths with one byte missing / one byte more
+    for n in 253usize..=257 {
+        for which in 0..2 {
+            let mk = |d: Vec<u8>| if which == 0 { GF::Nonce(d) } else { GF::Gate(d) };
+            let f = mk(rng.bytes(n));
+            if n == 253 || n == 254 || n == 257 { wf_case(o, &[f.clone()], "nonce-25x", true); }   // 255, 256 alone: family (3)
+            wf_case(o, &[GF::Key(keys.valid(&mut rng)), f.clone(), GF::Pad(rng.below(256) as usize)], "nonce-25x", true);
+            wf_case(o, &[f.clone(), GF::Key(keys.valid(&mut rng))], "nonce-25x", false);
+            wf_case(o, &[GF::MM(depth(&mut rng), rng.arr32(), None), mk(rng.bytes(n)), GF::Add(vec![keys.valid(&mut rng)]), f.clone()], "nonce-25x", false);
+            valid_raws.push(layout_all(&[GF::Key(keys.valid(&mut rng)), f.clone()]));
+            let full = layout_all(&[f.clone()]);
+            parse_case(o, &full[..full.len() - 1], "nonce-25x-short"); o.op(format!("c16_subfield {}", hex(&full[..full.len() - 1])), true);
+            let mut more = full.clone(); more.push(rng.byte() | 1);
+            parse_case(o, &more, "nonce-25x-more"); o.op(format!("c16_subfield {}", hex(&more)), true);
+            o.op(format!("c16_rawparse {}", hex(&more)), true); o.stat("rawparse.nonce-25x");
+        }
+    }
+    // (7g) merge-mining sub-fields with EVERY size byte 0..=42 followed by exactly that many bytes, by one byte fewer, and by
+    // more (`03`, `03 00`, `03 1f ..`): the decoder ignores the size byte; too few bytes for depth + root must give the error
+    // flag (never a panic), enough bytes a field whatever the size byte says
+    parse_case(o, &[3], "mm-size");
+    for sz in 0..=42usize {
+        let mut bodies: Vec<Vec<u8>> = vec![];
+        let mut r = rng.bytes(sz); if sz > 0 { r[0] &= 0x7f; } bodies.push(r);                   // one-byte depth, random
+        if rng.chance(1, 2) { bodies.push(vec![0u8; sz]); } else { bodies.push(vec![0x80u8; sz]); } // depth 0 / never-ending varint
+        if sz >= 33 {                                                                               // the layout the size byte announces
+            let w = sz - 32; let d: u64 = if w >= 10 { u64::MAX } else { (1u64 << (7 * (w as u32 - 1))) | rng.below(1 << (7 * (w as u32 - 1)).min(62)) };
+            let mut v = vec![]; varint(d, &mut v); v.extend_from_slice(&rng.arr32()); v.truncate(sz); while v.len() < sz { v.push(rng.byte()); }
+            bodies.push(v);
+        }
+        for (bi, body) in bodies.iter().enumerate() {
+            let mut exact = vec![3u8, sz as u8]; exact.extend_from_slice(body);
+            parse_case(o, &exact, "mm-size-exact"); o.op(format!("c16_subfield {}", hex(&exact)), true);
+            if bi == 0 { o.op(format!("c16_rawparse {}", hex(&exact)), true); o.stat("rawparse.mm-size"); }
+            if sz > 0 { parse_case(o, &exact[..exact.len() - 1], "mm-size-fewer"); }
+            let mut more = exact.clone();
+            if bi == 0 { more.extend_from_slice(&layout_all(&[GF::Key(keys.valid(&mut rng))])); } else { let k = rng.range(1, 40) as usize; more.extend(rng.bytes(k)); }
+            parse_case(o, &more, "mm-size-more");
+            if bi == 1 { o.op(format!("c16_rawparse {}", hex(&more)), true); o.stat("rawparse.mm-size"); }
+            if sz == 33 || sz == 0 || sz == 31 { valid_raws.push(exact); }
+        }
+        // a complete field (one-byte depth, 32-byte root) behind EVERY size byte: the field is returned whatever the size byte says
+        let mut b = vec![3u8, sz as u8, rng.byte() & 0x7f]; b.extend_from_slice(&rng.arr32());
+        if sz % 2 == 0 { b.extend_from_slice(&layout_all(&[GF::Key(keys.valid(&mut rng))])); }
+        parse_case(o, &b, "mm-size-complete");
+    }
     // (8) six mutation kinds of valid raws
     for i in 0..scale(3000, 30000) {
         let b = rng.pick(&valid_raws).clone();
@@ -584,5 +695,6 @@ pub fn run(o: &mut Out, tier: &str, seed: u64) {
         if rng.chance(1, 12) { o.op(format!("c16_rawparse {}", hex(&b)), !b.is_empty()); o.stat("rawparse.random"); }
     }
     o.notes.push("nontrivial rule: c16_ser, c16_subfield, c16_rawparse and c16_okpre (non-empty input) always; c16_parse when the input is non-empty and (a sub-field was decoded or the input has >= 2 bytes)".into());
-    o.notes.push("pre=<dump>: fields returned by the library's SubField decoder on a cursor before its first failure (computed by the harness with the library's decoder); for `err` results only the flag, `pre` and the accessors are constrained by the property, the salvaged list is modelled and compared as well".into());
+    o.notes.push("pre=<dump>: fields returned by the library's SubField decoder on a cursor before its first failure (computed by the harness with the library's decoder); for `err` results only the flag, `pre` and the accessors are constrained by the property, the salvaged list is modelled and compared as well. Only the ok/err flag of c16_okpre is an output of ExtraField::try_parse; `pre` is tied to try_parse by the direct check 'pre is a prefix of the result (all of it when Ok)'".into());
+    o.notes.push("families total-len* (33/34/43/44/45 bytes: key + nonce of every fitting length + further fields; no leading key; key + `02 sz` for sz 0..13), nonce-25x* (253..257 bytes, alone / in sequences / one byte short / long), mm-size* (`03 sz` for sz 0..42 followed by exactly sz bytes, one fewer, more, a complete field): c16_parse + c16_okpre on every case, c16_rawparse on most".into());
 }
